@@ -537,6 +537,40 @@ def filter_kinds(report):
     return [keep_golden("K.lean", "filterKinds", report, "kind check not found in setChannelFilterCompensation")]
 
 
+def filter_call_sites(report):
+    """every call of (ripasso.)applyInverseRCFilter in sequence.py: the function it sits in, the DC gain handed over, the
+    expression given as sample rate and the names given as kind / cut-off / order"""
+    seq = parse("sequence.py")
+    cls = next(n for n in seq.body if isinstance(n, ast.ClassDef) and n.name == "Sequence")
+    sites = []
+    for fn in [n for n in cls.body if isinstance(n, ast.FunctionDef)]:
+        for n in ast.walk(fn):
+            if isinstance(n, ast.Call) and ((isinstance(n.func, ast.Name) and n.func.id == "applyInverseRCFilter") or
+                                            (isinstance(n.func, ast.Attribute) and n.func.attr == "applyInverseRCFilter")):
+                pos = list(n.args)
+                kw = {k.arg: k.value for k in n.keywords}
+                names = ["signal", "SR", "kind", "f_cut", "order", "DCgain"]
+                bound = dict(zip(names, pos))
+                bound.update(kw)
+                dc = bound.get("DCgain")
+                if dc is None:
+                    dcv = "1"          # the function's own default for the compensation
+                elif isinstance(dc, ast.Constant) and isinstance(dc.value, (int, float)):
+                    from fractions import Fraction
+                    f = Fraction(dc.value).limit_denominator(10**12) if isinstance(dc.value, float) else Fraction(dc.value)
+                    dcv = f"({f.numerator} : Rat) / {f.denominator}" if f.denominator != 1 else f"({f.numerator} : Rat)"
+                else:
+                    raise Unsupported("DC gain of a compensation call is not a constant")
+                sr = ast.unparse(bound["SR"]) if "SR" in bound else "?"
+                args = [ast.unparse(bound[k]) if k in bound else "?" for k in ("kind", "f_cut", "order")]
+                sites.append(f'("{fn.name}", {dcv}, "{sr}", [' + ", ".join(f'"{a}"' for a in args) + "])")
+    if not sites:
+        raise Unsupported("no applyInverseRCFilter call found in Sequence")
+    return ["/-- every call of ripasso.applyInverseRCFilter in class Sequence: (method, DC gain handed over, sample-rate expression,\n"
+            "    the expressions handed over as kind / cut-off / order) -/\n"
+            "def filterCallSites : List (String × Rat × String × List String) := [" + ", ".join(sites) + "]"]
+
+
 def lin_count(report):
     tl = parse("tools.py")
     f = find_func(tl, "makeLinearlyVaryingSequence")
@@ -695,6 +729,7 @@ def generate():
     parts["defaults"] = section(k, lambda: default_sequencing(report), "default sequencing")
     parts["flags"] = section(k, lambda: flag_tables(report), "flag tables")
     parts["kinds"] = section(k, lambda: filter_kinds(report), "filter kinds")
+    parts["filtercalls"] = section(k, lambda: filter_call_sites(report), "compensation call sites")
     parts["lincount"] = section(k, lambda: lin_count(report), "linCount")
     parts["validate"] = section(k, lambda: validate_consts(report), "validate constants")
     parts["sigs"] = section(k, lambda: pulse_signatures(report), "pulse signatures")
